@@ -43,11 +43,14 @@ SPEC = {
     'lazy_init / jax.eval_shape / jax.jit of init run the module under JAX tracing, which the model does not contain: lazy_init_shapes_partial proves only that the program\'s control flow, names and shapes do not depend on values; agreement of the three entry points with concrete init is established by this correspondence run alone',
     'init_apply_agree (same output, no initialisation, store unchanged) is proved for declaration-only programs (param / variable / children; no put, sow, perturb, and no get_variable that could observe a variable before it exists: such programs legitimately compute something else at init time); for every program apply_keeps_tree proves that apply on init\'s variables creates, drops and renames nothing (Linen styles, apply filter within init\'s filter)',
     'a top-level parameter/variable/submodule named "params" inside collection "params" is excluded: core.apply rejects such a tree (theorem toplevel_params_name_rejected exhibits the point)',
-    'instances shared between two parents and bind/unbind are exercised on the implementation only (oracles), the model has one instance per construction site',
+    'bind/unbind are modelled at the level of (module body, name, bound scope) triples: unbind_bind, bound_submodule_variables, unbind_then_apply; Module.clone\'s field-by-field copying and the id-keyed adoption cache are not modelled',
+    'an instance shared between two PARENTS: the deep clone that init/apply/bind run on is modelled at the identity level (Model/CloneCache.lean: clone_preserves_sharing, tied to the real Module.clone by identity partitions per field); where its variables live (one subtree under the first adopting path), that every parent reads the one state (edited leaf) and unbind through any parent are checked on the implementation against an independent reference (layout family: fields at every position, lists/dicts, created in setup, depth 1-3); SProg itself still has no reference to a module from another module\'s body',
     'automatic-name spelling (Class_i) is learnt from the implementation by a probe and passed to the model',
   ],
   'model_partial': [
     'lazy_init_shapes_partial: proves value-independence of structure/shapes for the model evaluator; the real lazy_init/eval_shape/jit mechanisms are JAX (tied by correspondence only)',
+    'lazy_init_values: proves that on argument-free programs the returned variables are the same for every argument (the condition under which partial_eval.lazy_init returns, and the values it returns); that JAX classifies them as known is not modelled (checked: lazy_init returns concrete init\'s values)',
+    'sharing between parents: not in SProg (would need module references visible from descendants: a `callUp ancestor slot` form with the ancestors\' children in the per-call state and a relation on it in every simulation)',
   ],
 }
 
@@ -243,7 +246,7 @@ def program_suite(ctx, conv, prog, pending):
     if style != 'core' and rng.random() < 0.7:
       standalone(ctx, conv, R, prog, style, V, x, pending)
     if style == 'setup' and rng.random() < 0.7:
-      bind_unbind(ctx, R, prog, V, x)
+      bind_unbind(ctx, R, prog, V, x, pending)
   # --- shape-only init ----------------------------------------------------------------------------
   if rng.random() < 0.55:
     shape_only(ctx, conv, prog, rng.choice(styles), x, pending)
@@ -307,7 +310,7 @@ def standalone(ctx, conv, R, prog, style, V, x, pending):
         ctx.violation('submodule-not-compositional', f'submodule at {list(path)}: state after the call differs between the parent run and the standalone run', dict(S.public(sc), submodule=list(path)))
 
 
-def bind_unbind(ctx, R, prog, V, x):
+def bind_unbind(ctx, R, prog, V, x, pending=None):
   """setup style: parent.bind(V).child.unbind() gives a module + variables that reproduce the child's call"""
   decls, _ = S.split_decls(prog)
   kids = [d for d in decls if d['op'] == 'child']
@@ -328,6 +331,7 @@ def bind_unbind(ctx, R, prog, V, x):
     ctx.count('bind_unbind', 'bound-call-raised:' + S.classify(e))
     return
   try:
+    sub_path = list(sub_bound.path)
     sub, subV = sub_bound.unbind()
     y_out = sub.apply(subV, xin)
   except Exception as e:
@@ -343,8 +347,16 @@ def bind_unbind(ctx, R, prog, V, x):
     ctx.violation('unbind-not-equivalent', f'bound child returned {a}, unbound child applied on its variables returned {b}', case)
   elif S.snap_tree(Vpy)[0] != snap0:
     ctx.violation('bind-mutated-variables', 'bind/unbind changed the variables passed to bind', case)
-  elif sub.scope is not None or sub.name is not None and False:
-    ctx.violation('unbind-leaks-scope', 'unbind returned a bound module', case)
+  elif sub.scope is not None or sub.name is not None:
+    ctx.violation('unbind-leaks-scope', f'unbind returned a module that is still bound or named (scope={sub.scope is not None}, name={sub.name!r})', case)
+  else:
+    # a bound submodule's variables are exactly V|path (property oracle), and what the model's unbind returns
+    got, probs = S.flatten_vars(subV)
+    want = restrict_vars(V, sub_path)
+    if probs or got != want:
+      ctx.violation('unbind-variables-wrong', f'unbind() of the submodule at {sub_path} returned {got}, the subtree of the bound variables is {want}', case)
+    elif pending is not None:
+      pending.append(({'kind': 'unbind', 'vars': V, 'path': sub_path, 'got': got}, None))
 
 
 def shape_only(ctx, conv, prog, style, x, pending):
@@ -379,12 +391,19 @@ def shape_only(ctx, conv, prog, style, x, pending):
   for name, fn in variants:
     ctx.count('oracle', 'shape-only:' + name)
     try:
-      got = S.shapes_of(fn())
+      res = fn()
+      got = S.shapes_of(res)
     except Exception as e:
       ctx.violation('shape-only-raises:' + name, f'{name} of init raised {S.classify(e)} where concrete init succeeds', dict(case, variant=name))
       continue
     if got != want:
       ctx.violation('shape-only-differs:' + name, f'{name} of init gives {got}, concrete init {want}', dict(case, variant=name))
+    elif name == 'lazy_init':
+      # lazy_init returns the *known* values: on argument-free programs these are concrete init's values
+      ctx.count('oracle', 'lazy-init-values')
+      lv, cv = S.flatten_vars(res)[0], S.flatten_vars(r[1][1])[0]
+      if lv != cv:
+        ctx.violation('lazy-init-values-differ', f'lazy_init returned {lv}, concrete init {cv}', dict(case, variant=name))
   # model tie: the model's shape-only view of its own init result
   pending.append(({'kind': 'abstract', 'prog': prog, 'style': style, 'x': x, 'want': {'/'.join(k): (list(v[0]) if _is_tensor_entry(v) else [list(t[0]) for t in v]) for k, v in want.items()}}, None))
 
@@ -417,13 +436,27 @@ def clash_suite(ctx, conv, pending):
 def flush(ctx, drv, conv, pending):
   reqs = []
   for sc, o in pending:
-    if sc['kind'] == 'abstract':
+    if sc['kind'] == 'clone':
+      reqs.append(('clone', [sc['fields'], 1000]))
+    elif sc['kind'] == 'unbind':
+      reqs.append(('unbind', [sc['vars'], sc['path']]))
+    elif sc['kind'] == 'abstract':
       reqs.append(S.model_request({'kind': 'init', 'prog': sc['prog'], 'style': sc['style'], 'mutable': {'deny': 'intermediates'},
                                    'rngs': True, 'x': sc['x']}, conv))
     else:
       reqs.append(S.model_request(sc, conv))
   outs = drv.run(reqs)
   for (sc, o), m in zip(pending, outs):
+    if sc['kind'] == 'clone':
+      if m[0] != 'ok' or S.partition(m[1]) != sc['want']:
+        ctx.disagreements_checked += 1
+        ctx.violation('model-mismatch:clone', f"sharing after deep clone: implementation {sc['want']}, model {m}", {'kind': 'clone', 'fields': sc['fields']}, concrete=False)
+      continue
+    if sc['kind'] == 'unbind':
+      if m[0] != 'ok' or S.canon_vars(m[1]) != sc['got']:
+        ctx.disagreements_checked += 1
+        ctx.violation('model-mismatch:unbind', f"unbind variables: implementation {sc['got']}, model {m}", {k: v for k, v in sc.items() if k != 'got'}, concrete=False)
+      continue
     if sc['kind'] == 'abstract':
       if m[0] == 'ok' and 'ret' in m[1]:
         got = {'/'.join(p): (v['t'] if 't' in v else [t['t'] for t in v['tup']]) for p, v in m[1]['ret']['vars']}
@@ -483,6 +516,8 @@ def run_case(ctx, drv, conv, case):
     C1.run_case(ctx, drv, conv, case)
   elif kind == 'shared':
     S.check_shared(ctx, case, 'C02')
+  elif kind == 'layout':
+    S.check_layout(ctx, case, 'C02')
   elif kind == 'shape-only':
     pending = []
     shape_only(ctx, conv, case['prog'], case['style'], case['x'], pending)
@@ -513,6 +548,8 @@ def run(ctx):
   thorough = ctx.tier == 'thorough'
   for _ in range(30 if not thorough else 300):
     S.check_shared(ctx, S.shared_case(ctx.rng), 'C02')
+  for _ in range(80 if not thorough else 800):
+    S.check_layout(ctx, S.gen_layout(ctx.rng), 'C02', pending)
   lazy_stream(ctx, conv, pending, 40 if not thorough else 400)
   flush(ctx, drv, conv, pending)
   # parameter shapes that follow the argument's shape; submodules re-used on different widths
